@@ -494,6 +494,11 @@ class Gen:
             ("RotationZMatrix(a1-a2)", lz.RotationZMatrix(I.a1 - I.a2, n_events=n1)),
             ("RotationZMatrix(3*a1)", lz.RotationZMatrix(3 * I.a1, n_events=n1)),
             ("MatrixMultiplication(RY(a1+a2),RZ(-a1-a2))", MM(lz.RotationYMatrix(I.a1 + I.a2, n_events=n1), lz.RotationZMatrix(-I.a1 - I.a2, n_events=n1))),
+            # the same factor twice in one chain (a rotation or boost applied twice)
+            ("MatrixMultiplication(RY,RY)", MM(RY, RY)),
+            ("MatrixMultiplication(BZ,RZ,BZ)", MM(BZ, RZ, BZ)),
+            ("ArrayMultiplication(RZ,RZ,p)", AM(RZ, RZ, I.p)),
+            ("ArrayMultiplication(B(q),RY,B(q),p)", AM(Bq, RY, Bq, I.p)),
             ("NegativeMomentum(p)", lz.NegativeMomentum(I.p)),
             ("NegativeMomentum(p+q)", lz.NegativeMomentum(ae.ArraySum(I.p, I.q))),
             ("BoostMatrix(NegativeMomentum(p+q))", lz.BoostMatrix(lz.NegativeMomentum(ae.ArraySum(I.p, I.q)))),
